@@ -227,7 +227,7 @@ def order_ok(P: ItpSelf):
                                      z3.Select(P.first_at, z3.Select(P.ordr, p)) < z3.Select(P.first_at, z3.Select(P.ordr, q)))))
 
 
-def _discharge_all(tag, it, ends, seed, cex, timeout_ms=60000):
+def _discharge_all(tag, it, ends, seed, cex, timeout_ms=25000):
     out = [ob(f"{tag}/vc-generation", "discharged" if it.obls and ends else "undecided", engine="pyvc", backend="ast",
               sample={"obligations": len(it.obls), "exit_paths": len(ends)})]
     for o in it.obls:
@@ -294,7 +294,7 @@ def task_itpfile_init(prop, seed):
                                                           IsHdr(z3.Select(P.first_at, s)), Sec(z3.Select(P.first_at, s)) == s))))),
                  ("sections_ordered_by_first_appearance_after_the_header", order_ok(P))]
         for name, goal in posts:
-            v = discharge(f"{tag}/exit{ei}/ensures.{name}", e.pc, goal, backends=("z3",), engine="pyvc", timeout_ms=60000, seed=seed)
+            v = discharge(f"{tag}/exit{ei}/ensures.{name}", e.pc, goal, backends=("z3",), engine="pyvc", timeout_ms=25000, seed=seed)
             if v["status"] == "refuted":
                 v["cex"] = dict(cex, clause=name)
             out.append(v)
@@ -622,7 +622,7 @@ def task_itpfile_write(prop, seed):
             continue
         w = e.ghost["written"]
         v = discharge(f"{tag}/exit{ei}/ensures.written_is_header_lines_verbatim_then_each_section_once_in_dictionary_order", e.pc,
-                      z3.And(w.length == Off(NSec), _segments(w, NSec)), backends=("z3",), engine="pyvc", timeout_ms=60000, seed=seed)
+                      z3.And(w.length == Off(NSec), _segments(w, NSec)), backends=("z3",), engine="pyvc", timeout_ms=25000, seed=seed)
         if v["status"] == "refuted":
             v["cex"] = dict(cex, clause="written")
         out.append(v)
